@@ -449,7 +449,7 @@ pub fn run(prop: &'static str, tier: Tier, seed: u64, findings: &Findings) -> i3
     let check = C08 { prop, cfg: gen::css::CssCfg::new() };
     let mut report = engine::Report::default();
     report.merge(super::run_regress(&check, &cfg, findings));
-    let cases = tier.pick(6000, 600_000);
+    let cases = tier.pick(300_000, 10_000_000);
     report.merge(engine::run_generated(&check, &cfg, cases, 16, 16, findings, 0));
     let rule = match prop {
         "C09" => "cases = generated stylesheets (all at-rules, selector functions nested to depth 3, escaped / non-ASCII class names, decoys in non-selector positions) x {prefix none/empty/ascii/non-ascii} x {sign on/off}. Oracle: in the re-tokenised output exactly the model's class-selector identifiers are `P--name` (each preceded by exactly one sign comment when a sign is configured) and every other identifier is unchanged. non-trivial = a class below selector-function depth 1 or inside an at-rule; distinct by source.",
